@@ -42,6 +42,10 @@ def errName : Err → String
 
 def evJson (e : Ev) : Json := jarr [jnat e.id, jarr (e.enclosing.map jnat)]
 
+/-- compact text of the first executions: `id:len,len|id:len…` -/
+def headStr (tr : List Ev) : String :=
+  "|".intercalate ((tr.take 8).map fun e => toString e.id ++ ":" ++ ",".intercalate (e.enclosing.map toString))
+
 def digestP : Nat := 2305843009213693951   -- 2^61 - 1
 def mix (h x : Nat) : Nat := (h * 1000003 + x + 1) % digestP
 /-- order-sensitive digest of the whole trace (ids, nesting depths and every enclosing length) -/
@@ -58,14 +62,14 @@ def runJson (full : Bool) (E : Env) (main : List Node) : Json :=
     if full then Json.mkObj [("result", jstr "ok"), ("events", jarr (tr.map evJson))] else
     Json.mkObj [("result", jstr "ok"), ("n", jnat tr.length),
                 ("max", jnat (tr.foldl (fun a e => max a (prod e.enclosing)) 0)),
-                ("digest", jstr (toString (digest tr))), ("head", jarr ((tr.take 12).map evJson))]
+                ("digest", jstr (toString (digest tr))), ("head", jstr (headStr tr))]
   | .error e =>
     if full then Json.mkObj [("result", jstr (errName e)), ("events", jarr [])] else
     Json.mkObj [("result", jstr (errName e)), ("n", jnat 0), ("max", jnat 0),
-                ("digest", jstr (toString (digest []))), ("head", jarr [])]
+                ("digest", jstr (toString (digest []))), ("head", jstr "")]
 
 /-- `["c06", [limit|null …], depth, [[name, nodes]…], nodes]` → `{"runs": [one per limit]}` with
-    `{"result": "ok"|<error class>, "n": #executions, "max": max product, "digest": "<decimal>", "head": first 12 executions}`.
+    `{"result": "ok"|<error class>, "n": #executions, "max": max product, "digest": "<decimal>", "head": first 8 executions as text}`.
     The digest covers every execution with all its enclosing lengths; `c06full` returns them all. -/
 def handleWith (full : Bool) (args : List Json) : Json :=
   match args with
